@@ -29,6 +29,9 @@ def main():
     demo = demo_files[0]
     pkg = meta.get("demo_pkg_dir", "s2").strip("/")
     cmd = meta.get("demo_cmd", "go test ./%s -count=1 -run Demo" % pkg)
+    cmd = cmd.split("#")[0].strip()
+    if "&&" in cmd:  # e.g. "cp _out/... s2/ && go test ..." - the copy is done here
+        cmd = [c.strip() for c in cmd.split("&&") if c.strip().startswith("go test")][-1]
     wt = "/tmp/seedcheck_%s" % sid
     sh(["git", "-C", "/repo", "worktree", "remove", "--force", wt]); shutil.rmtree(wt, ignore_errors=True)
     rc, out = sh(["git", "-C", "/repo", "worktree", "add", "--detach", wt, "HEAD"])
